@@ -262,7 +262,13 @@ def extract_step(hist, agg, expand):
         for step, opi in enumerate(hist[1:]):
             name, rep, outf = EXTRACT_OPS[opi]
             inp, oute, outp, repf = (os.path.join(d, f"{step}_{x}") for x in ("in.suit", "out.suit", "payload.bin", "rep.bin"))
-            open(inp, "wb").write(cur)
+            if key % 2:
+                # the envelope is stripped payload by payload IN PLACE: every step reads and writes the one file
+                inp = oute = os.path.join(d, "work.suit")
+                if step == 0:
+                    open(inp, "wb").write(cur)
+            else:
+                open(inp, "wb").write(cur)
             repl = b"replacement-" + bytes([step, 0, 255])
             if rep == "same-file":
                 # both options name the same file (spelled differently): it holds the replacement and receives the old payload
@@ -274,7 +280,7 @@ def extract_step(hist, agg, expand):
                 open(repf, "wb").write(repl)
             if outf and rep != "same-file":
                 open(outp, "wb").write(b"STALE CONTENT OF AN EARLIER RUN")      # the output path may already exist
-            label = f"history {hist[0]} -> {[EXTRACT_OPS[i] for i in hist[1:step + 2]]}"
+            label = f"history {hist[0]} -> {[EXTRACT_OPS[i] for i in hist[1:step + 2]]}" + (" (in place, one envelope file)" if key % 2 else "")
             present = name in state
             try:
                 cmd_payload_extract.main(input_envelope=inp, output_envelope=oute, payload_name=name,
